@@ -226,7 +226,8 @@ func (i *Int) EuclideanDivVarTime(remainder *Nat, numerator, denominator *Int) (
 		qOut.Set(&qan)
 	}
 	i.Set(&qOut)
-	i.Resize(min(numerator.AnnouncedLen(), numerator.AnnouncedLen()-denominator.TrueLen()+2))
+	// at least one bit: for a negative numerator smaller in magnitude than the denominator the quotient is +-1
+	i.Resize(max(1, min(numerator.AnnouncedLen(), numerator.AnnouncedLen()-denominator.TrueLen()+2)))
 
 	if remainder != nil {
 		var rOut Int
